@@ -34,6 +34,8 @@ pub struct Family {
     pub odd_names: bool,
     /// long repetitive strings / names: packed-string columns that get LZ4-compressed
     pub compressible: bool,
+    /// integer values spread over more than 8 bits (u16 / u32 columns)
+    pub wide_ints: bool,
     /// string-valued columns (packed-string columns of ordinary words also compress once a merged
     /// partition is large enough - finding F28 - so only dedicated families carry them)
     pub strings: bool,
@@ -76,13 +78,15 @@ fn pool(odd: bool, compressible: bool) -> Vec<(String, u8)> {
     v
 }
 
-fn cell(r: &mut Rng, kind: u8, hex: bool, compressible: bool, row_id: i64) -> Sx {
+fn cell(r: &mut Rng, kind: u8, hex: bool, compressible: bool, wide: bool, row_id: i64) -> Sx {
     match kind {
         0 => {
+            // integer columns whose range needs u16 / u32 storage get LZ4-compressed and then break
+            // compaction (finding F29); only the dedicated family carries them
             let v = match r.below(6) {
                 0 => r.range(-3, 3),
-                1 => r.range(-100000, 100000),
-                2 => 1_700_000_000 + row_id,
+                1 if wide => r.range(-100000, 100000),
+                2 if wide => 1_700_000_000 + row_id,
                 _ => r.range(0, 50),
             };
             l(vec![a("i"), Sx::int(v)])
@@ -159,7 +163,7 @@ impl<'f> HistGen<'f> {
                     if all_null || (self.fam.nulls && r.chance(1, 3)) {
                         a("n")
                     } else {
-                        cell(r, k, self.fam.hex, self.fam.compressible && !self.fam.odd_names, start + i as i64)
+                        cell(r, k, self.fam.hex, self.fam.compressible && !self.fam.odd_names, self.fam.wide_ints, start + i as i64)
                     }
                 })
                 .collect();
